@@ -84,7 +84,21 @@ impl BuildJob<'_> {
     ) -> Result<Pin<Box<dyn Future<Output = i32> + 'a>>, RedoError> {
         let before_t = try_stat(self.t.as_path()).map_err(RedoError::opaque_error)?;
         debug_assert!(self.lock.is_owned());
-        let (is_target, dirty) = (self.should_build_func)(&mut ptx, &self.t)?;
+        let (is_target, dirty) = match (self.should_build_func)(&mut ptx, &self.t) {
+            Ok(result) => result,
+            Err(e) => {
+                // An error that carries an exit code (e.g. the target already
+                // failed during this run) is the outcome of this one job.
+                // It must not abandon the jobs that are still running, nor
+                // (with --keep-going) the targets that are still to be built.
+                let e: Box<dyn std::error::Error + 'static> = Box::new(e);
+                if let &RedoErrorKind::ImmediateExit(code) = RedoErrorKind::of(&e) {
+                    log_err!("{}\n", e);
+                    return Ok(Box::pin(future::ready(code)));
+                }
+                return Err(*e.downcast::<RedoError>().unwrap());
+            }
+        };
         match dirty {
             Dirtiness::Clean => {
                 // Target doesn't need to be built; skip the whole task.
